@@ -5,7 +5,7 @@ import json, os, subprocess, sys
 pid, rnd = sys.argv[1], sys.argv[2]
 wt = f"/tmp/wt-{pid}n{rnd}"
 subprocess.run(["git", "-C", "/repo", "worktree", "add", "-q", wt, "HEAD"], check=True)
-t = open(os.path.join(os.path.dirname(os.path.abspath(__file__)), 'neutral_prompt_template.txt')).read()
+t = open(os.path.join(os.path.dirname(os.path.abspath(__file__)), 'neutral_prompt_template2.txt' if rnd >= '2' else 'neutral_prompt_template.txt')).read()
 prop = None
 for l in open('/verif/properties.jsonl'):
     p = json.loads(l)
